@@ -154,13 +154,14 @@ theorem exceptionStream_loc_irrelevant (c : Option CrashInfo) (bl : Nat) (ctc : 
   | crashContextPlusAddress l a => rfl
 
 theorem Refine_exception (d : DumpIn) (a : Acc) (pre : Bytes) (hpre : pre.length = a.base)
-    (hb : a.pos + d.standalone.length + 168 < 2 ^ 32) :
+    (hb : a.pos + (if needsStandalone d then d.standalone.length else 0) + 168 < 2 ^ 32) :
     opException (a.bufOf pre) d.crash d.blamed (ctcOf d) d.standalone =
       some ((stException d a).bufOf pre, ⟨ST_EXCEPTION, 168, a.pos + (if needsStandalone d then d.standalone.length else 0)⟩) := by
   have hlenb : (a.bufOf pre).len = a.pos := by simp [Acc.bufOf, Buf.len, Acc.pos, hpre]
   unfold opException
   by_cases hn : needsStandalone d = true
   · have hn' : (d.crash.isSome && ctcOf d == CTC.none) = true := hn
+    simp only [hn, if_true] at hb
     obtain ⟨b1, s, h1, hb1, hl1⟩ := C16_allocWithVal (a.bufOf pre) d.standalone (by rw [hlenb]; omega)
     have hlen1 : b1.len = a.pos + d.standalone.length := by simp [Buf.len, hb1, Acc.bufOf, Acc.pos, hpre]; omega
     obtain ⟨b2, s2, h2, hb2, hl2⟩ := C16_allocWithVal b1
@@ -172,6 +173,7 @@ theorem Refine_exception (d : DumpIn) (a : Acc) (pre : Bytes) (hpre : pre.length
     rw [hb2, hb1]; simp [stException, hn, Acc.add, Acc.publish, Acc.bufOf, List.append_assoc]
   · have hn0 : needsStandalone d = false := by cases h : needsStandalone d <;> simp_all
     have hn' : (d.crash.isSome && ctcOf d == CTC.none) = false := hn0
+    simp only [hn0, Bool.false_eq_true, if_false, Nat.add_zero] at hb
     obtain ⟨b2, s2, h2, hb2, hl2⟩ := C16_allocWithVal (a.bufOf pre)
       (exceptionStream d.crash d.blamed (ctcOf d) (0, 0)) (by rw [hlenb, exceptionStream_length]; omega)
     simp only [hn', Bool.false_eq_true, if_false, h2, hl2, exceptionStream_length, hlenb, hn0]
